@@ -731,11 +731,15 @@ class BlobStorageMixin:
         with self._lock:
             self.fshelper.getPathForOID(oid, create=True)
             targetname = self.fshelper.getBlobFilename(oid, serial)
-            rename_or_copy_blob(blobfilename, targetname)
 
             # if oid already in there, something is really hosed.
             # The underlying storage should have complained anyway
+            # (Noted first: if putting the file in place fails half way -
+            # a copy from another file system that runs out of space, a
+            # source that cannot be removed - the abort has to remove what
+            # there is of it.)
             self.dirty_oids.append((oid, serial))
+            rename_or_copy_blob(blobfilename, targetname)
 
     def storeBlob(self, oid, oldserial, data, blobfilename, version,
                   transaction):
